@@ -42,6 +42,7 @@ MANIFEST = {
 REACH = ["get_chunk_dtype_transformer", "chunk_transformer"]
 WORKER_TIMEOUT = {"quick": 600, "thorough": 3600}
 KF = "C11-uint64-through-float64"
+_SHARED = {}
 
 
 def gen_cases(tier, seed):
@@ -236,7 +237,16 @@ def run_case(case):
            "preserve_true": int(case["preserve"]), "preserve_false": int(not case["preserve"]),
            "large_arrays": int(bool(case.get("large")))}
     try:
-        tr = get_chunk_dtype_transformer(np.dtype(i), np.dtype(o), warn=False)
+        # conversion loops create one transformer and call it for every chunk: half of the
+        # cases share one transformer per type pair for the life of the worker
+        if case["vseed"] % 2 == 0:
+            if (i, o) not in _SHARED:
+                _SHARED[(i, o)] = get_chunk_dtype_transformer(np.dtype(i), np.dtype(o),
+                                                              warn=False)
+            tr = _SHARED[(i, o)]
+            obs["shared_transformer_calls"] = 1
+        else:
+            tr = get_chunk_dtype_transformer(np.dtype(i), np.dtype(o), warn=False)
         with np.errstate(all="ignore"):
             res = tr(a, preserve_input=case["preserve"])
     except Exception as exc:  # noqa: BLE001
